@@ -476,6 +476,77 @@ def insolve_oracle(case, stats=None):
         stats.extra["insolve_solves_checked"] = stats.extra.get("insolve_solves_checked", 0) + state["nsolve"]
 
 
+# ------------------------------------------------------------------ part "patterns": KKT solvers on sparse patterns
+
+@st.composite
+def kktpattern_case(draw):
+    """pure 'l' cone, 6..10 variables, genuinely sparse G (2-3 entries per row plus -I rows), dense or sparse A,
+    H absent or sparse diagonal: large enough for non-trivial fill-reducing orderings in kkt_chol2 / kkt_ldl2"""
+    n = draw(st.integers(6, 10))
+    mrows = draw(st.integers(3, 7))
+    p = draw(st.integers(0, 2))
+    rows = [[(draw(st.integers(0, n - 1)), draw(st.integers(-4, 4)) / 2.0) for _ in range(draw(st.integers(2, 3)))] for _ in range(mrows)]
+    return dict(n=n, mrows=mrows, p=p, rows=rows, A=[[draw(st.integers(-4, 4)) / 2.0 for _ in range(n)] for _ in range(p)],
+                d=[[draw(st.integers(1, 8)) / 4.0 for _ in range(mrows + n)] for _ in range(draw(st.integers(1, 3)))],
+                H=draw(st.sampled_from([None, None, "diag"])), hd=[draw(st.integers(0, 4)) / 2.0 for _ in range(n)],
+                spA=draw(st.booleans()), rhs=[draw(st.integers(-4, 4)) / 2.0 for _ in range(2 * n + mrows + p)])
+
+
+def kktpattern_oracle(case, stats=None):
+    n, mrows, p = case["n"], case["mrows"], case["p"]
+    m = mrows + n
+    G = np.zeros((m, n))
+    for i, r in enumerate(case["rows"]):
+        for j, v in r:
+            G[i, j] += v
+    for j in range(n):
+        G[mrows + j, j] = -1.0
+    A = np.array(case["A"], dtype=float).reshape((p, n))
+    if p and np.linalg.matrix_rank(A) < p:
+        if stats is not None:
+            stats.evaluated(case, False, ["kktpatterns", "skipped:rank"])
+        return
+    dims = {"l": m, "q": [], "s": []}
+    H = np.diag(case["hd"]) if case["H"] else None
+    I = [i for i in range(m) for j in range(n) if G[i, j] != 0.0]
+    J = [j for i in range(m) for j in range(n) if G[i, j] != 0.0]
+    Gm = spmatrix([G[i, j] for i, j in zip(I, J)], I, J, (m, n))
+    Am = (sparse(mk(A)) if case["spA"] else mk(A)) if p else (spmatrix([], [], [], (0, n)) if case["spA"] else matrix(0.0, (0, n)))
+    Hm = None
+    if H is not None:
+        Hm = spmatrix(list(np.diag(H)), range(n), range(n), (n, n))
+    rhs = np.array(case["rhs"], dtype=float)
+    bx, by, bz = rhs[:n], rhs[n:n + p], rhs[n + p:n + p + m]
+    sols = {}
+    for name in ("ldl", "chol2", "chol", "ldl2"):
+        fac = make_factory(name, Gm, dims, Am, 0)
+        for si, d in enumerate(case["d"]):
+            dv = np.array(d, dtype=float)
+            Wc = {"d": mk(dv), "di": mk(1.0 / dv), "dnl": matrix(0.0, (0, 1)), "dnli": matrix(0.0, (0, 1)), "beta": [], "v": [], "r": [], "rti": []}
+            Wn = rc.W_from_cvxopt(Wc)
+            try:
+                f = fac(Wc, Hm)
+                x, y, z = mk(bx), mk(by), mk(bz)
+                f(x, y, z)
+            except Exception as e:       # noqa
+                raise Violation("kkt_%s on a sparse pattern (n=%d, %d rows, p=%d, A %s, H %s), factor %d: raised %s: %s" % (
+                    name, n, m, p, "sparse" if case["spA"] else "dense", case["H"], si, type(e).__name__, e))
+            ux, uy, wuz = arr(x), arr(y), arr(z)
+            be, K = ref_kkt.kkt_residual(G, A, Wn, dims, bx, by, bz, ux, uy, wuz, P=H, mnl=0)
+            if not np.all(np.isfinite(np.concatenate([ux, uy, wuz]))) or be > ROUND:
+                raise Violation("kkt_%s on a sparse pattern (n=%d, %d rows, p=%d, A %s, H %s), factor %d: backward error %.3e of the "
+                                "documented block system" % (name, n, m, p, "sparse" if case["spA"] else "dense", case["H"], si, be))
+            cur = np.concatenate([ux, uy, wuz])
+            if si in sols:
+                tol = ROUND * (np.linalg.cond(K) if K.size else 1.0) * (1 + np.linalg.norm(sols[si][1])) + 1e-12
+                if np.max(np.abs(cur - sols[si][1])) > tol:
+                    raise Violation("kkt_%s and kkt_%s disagree by %.3e on a sparse pattern" % (name, sols[si][0], float(np.max(np.abs(cur - sols[si][1])))))
+            else:
+                sols[si] = (name, cur)
+    if stats is not None:
+        stats.evaluated(case, True, ["kktpatterns", "kktpatterns:p=%d" % p, "kktpatterns:H=%s" % case["H"]])
+
+
 # ------------------------------------------------------------------ part "restore": W after cpl's restore-and-retry
 
 @st.composite
@@ -486,7 +557,8 @@ def restore_case(draw):
     m = draw(st.integers(1, 2))
     return dict(n=n, m=m, K=draw(st.sampled_from([5.0, 10.0, 25.0])), A=[[draw(st.integers(-4, 4)) / 4.0 for _ in range(n)] for _ in range(m)],
                 c=[draw(st.integers(-4, 4)) / 2.0 for _ in range(n)], x0=[draw(st.integers(-2, 2)) / 4.0 for _ in range(n)],
-                xscale=draw(st.sampled_from([0.5, 1.0, 2.0])), lrows=draw(st.integers(0, 2)), form=draw(st.sampled_from(["cpl", "cpl", "cp"])))
+                xscale=draw(st.sampled_from([0.5, 1.0, 2.0])), lrows=draw(st.integers(0, 2)), form=draw(st.sampled_from(["cpl", "cpl", "cp"])),
+                sblock=draw(st.booleans()))
 
 
 def restore_oracle(case, stats=None):
@@ -511,6 +583,14 @@ def restore_oracle(case, stats=None):
     for i in range(n):
         G[l + 1 + i, i] = -1.0
     dims = {"l": l, "q": [n + 1], "s": []}
+    if case.get("sblock"):
+        # 's' block of order 2:  [[R, x_0], [x_0, R]] >= 0  (|x_0| <= R), stored column-major
+        Gs2 = np.zeros((4, n))
+        Gs2[1, 0] = -1.0
+        Gs2[2, 0] = -1.0
+        G = np.vstack([G, Gs2])
+        h = np.concatenate([h, [R, 0.0, 0.0, R]])
+        dims = {"l": l, "q": [n + 1], "s": [2]}
     Gm, hm = gc.cvx_dense(G), gc.cvx_dense(h)
     Am = gc.cvx_dense(Aa)
     cm = gc.cvx_dense(c)
@@ -564,7 +644,7 @@ def restore_oracle(case, stats=None):
             if rec[j][0] == xk and rec[j][1] == zk:
                 restores += 1
                 old = rec[j][2]
-                dev = float(np.max(np.abs(old - Wk)) / max(1.0, float(np.max(np.abs(old))))) if old.size else 0.0
+                dev = float(np.max(np.abs(old - Wk)) / max(1.0, float(np.max(np.abs(old))))) if old.size and old.shape == Wk.shape else 1.0
                 if dev > 1e-10:
                     raise Violation("%s, ArithmeticError injected into kktsolver call #%d: the retry starts from the iterate of call #%d "
                                     "(identical x, z) but receives a scaling W that differs from the one of that call (relative %.2e): "
@@ -575,6 +655,9 @@ def restore_oracle(case, stats=None):
 
 
 def search(ctx, stats):
+    if ctx.part == "patterns":
+        v = run_given(kktpattern_case(), lambda c: kktpattern_oracle(c, stats), ctx.seed, ctx.n(4000, 100000), stats)
+        return [v] if v else []
     if ctx.part == "restore":
         v = run_given(restore_case(), lambda c: restore_oracle(c, stats), ctx.seed, ctx.n(250, 6000), stats)
         return [v] if v else []
@@ -590,7 +673,7 @@ def search(ctx, stats):
 
 def replay(case, part):
     try:
-        {"direct": direct_oracle, "scaling": scaling_oracle, "insolve": insolve_oracle, "restore": restore_oracle}[part](case)
+        {"direct": direct_oracle, "scaling": scaling_oracle, "insolve": insolve_oracle, "restore": restore_oracle, "patterns": kktpattern_oracle}[part](case)
     except Violation as v:
         return v.msg
     return None
